@@ -2,53 +2,99 @@ import HailVerif.Model.RateLimit
 import HailVerif.Model.DriverUtil
 open HailVerif HailVerif.DriverUtil HailVerif.RateLimit
 
-/-- What the event loop does while the clock moves to `target`: every sleeper whose sleep has ended runs one iteration
-(`attempt`), then the clock jumps to the next wake-up time.  Built only from `step`, so the theorems (which hold for every
-op list) cover it.  The order among sleepers due at the same instant does not influence the admission times. -/
-partial def advance (c : Cfg) (s : State) (target : Int) : Except Err State :=
-  match s.sleepers.find? (fun p => p.2.2 ≤ s.now) with
+/-- driver state: the model state plus the harness's schedule of body ends (the body of an admitted entrant is
+`await asyncio.sleep(d); [raise]`), which is not part of the limiter -/
+structure D where
+  c : Cfg
+  s : State
+  /-- (task, body duration, ends by exception) for every entrant that has arrived -/
+  durs : List (Nat × Nat × Bool)
+  /-- (task, time its body ends, by exception) for entrants that have been admitted -/
+  ends : List (Nat × Int × Bool)
+
+/-- one model step; entrants admitted by it get their body-end time -/
+def dstep (d : D) (op : Op) : Except Err D :=
+  match step d.c d.s op with
+  | .error e => .error e
+  | .ok s' =>
+    let fresh := s'.inBody.filter fun i => !d.s.inBody.contains i
+    let newEnds := fresh.filterMap fun i => (d.durs.find? fun p => p.1 == i).map fun p => (i, s'.now + (p.2.1 : Int), p.2.2)
+    .ok { d with s := s', ends := (d.ends.filter fun p => s'.inBody.contains p.1) ++ newEnds }
+
+/-- What the event loop does while the clock moves to `target`: every body whose time is up ends (`exit`/`fail`), every
+sleeper whose sleep has ended runs one iteration (`attempt`), then the clock jumps to the next timer.  Built only from
+`step`, so the theorems (which hold for every op list) cover it.  The order among timers due at the same instant does
+not influence the admission times. -/
+partial def advance (d : D) (target : Int) (hint : List Nat) : Except Err D :=
+  match d.ends.find? (fun p => p.2.1 ≤ d.s.now) with
   | some p =>
-    match step c s (.attempt p.1) with
-    | .ok s' => advance c s' target
+    match dstep d (if p.2.2 then .fail p.1 else .exit p.1) with
+    | .ok d' => advance d' target hint
     | .error e => .error e
   | none =>
-    let next := s.sleepers.foldl (fun (m : Option Int) p => match m with | none => some p.2.2 | some x => some (min x p.2.2)) none
-    match next with
-    | some n =>
-      if n ≤ target then
-        match step c s (.tick (n - s.now).toNat) with
-        | .ok s' => advance c s' target
-        | .error e => .error e
-      else step c s (.tick (target - s.now).toNat)
-    | none => step c s (.tick (target - s.now).toNat)
+  let due := d.s.sleepers.filter (fun p => p.2.2 ≤ d.s.now)
+  -- which of several sleepers due at the same instant runs first is the event loop's choice (timer heap order): the
+  -- harness passes the order it observed as a hint; it only breaks ties among sleepers that ARE due
+  let pick : Option Nat := match hint.find? (fun i => due.any (·.1 == i)) with
+    | some i => some i
+    | none => due.head?.map (·.1)
+  match pick with
+  | some i =>
+    match dstep d (.attempt i) with
+    | .ok d' => advance d' target (hint.erase i)
+    | .error e => .error e
+  | none =>
+    let timers := d.s.sleepers.map (·.2.2) ++ d.ends.map (·.2.1)
+    let next := timers.foldl (fun (m : Option Int) x => match m with | none => some x | some y => some (min x y)) none
+    let goal := match next with | some n => if n ≤ target then n else target | none => target
+    match dstep d (.tick (goal - d.s.now).toNat) with
+    | .error e => .error e
+    | .ok d' => if goal < target ∨ next == some target then advance d' target hint else .ok d'
 
 def showErr : Err → String
   | .indexError => "err IndexError"
   | .notDue => "err notDue"
+  | .protocol => "err"
 
-/-- lines: `cfg count W` (new limiter, clock 0), `arrive i` (task i calls `__aenter__` now), `advance dt` -/
-def handle (st : Option (Cfg × State)) (line : String) : Option (Cfg × State) × String :=
+def inAenter (d : D) : Nat := d.s.sleepers.length
+
+/-- lines: `cfg count W` (new limiter, clock 0), `arrive i d e` (task i calls `__aenter__` now; its body lasts d ticks and
+ends by an exception iff e = 1), `cancel i`, `advance dt [tie-break order of task ids]` -/
+def handle (st : Option D) (line : String) : Option D × String :=
   match words line, st with
   | ["cfg", n, w], _ =>
     match n.toNat?, w.toInt? with
-    | some n, some w => (some (⟨n, w⟩, init 0), "ok")
+    | some n, some w => (some ⟨⟨n, w⟩, init 0, [], []⟩, "ok")
     | _, _ => (st, "bad-op")
-  | ["arrive", i], some (c, s) =>
+  | ["arrive", i, dur, e], some d =>
+    match i.toNat?, dur.toNat? with
+    | some i, some dur =>
+      match dstep { d with durs := (i, dur, e == "1") :: d.durs } (.attempt i) with
+      | .ok d' =>
+        let admitted := d'.s.log.length > d.s.log.length
+        -- a body of duration 0 ends within the same loop iteration
+        match advance d' d'.s.now [] with
+        | .ok d'' => (some d'', if admitted then "admit" else "sleep")
+        | .error e => (st, showErr e)
+      | .error e => (st, showErr e)
+    | _, _ => (st, "bad-op")
+  | ["cancel", i], some d =>
     match i.toNat? with
     | some i =>
-      match step c s (.attempt i) with
-      | .ok s' => (some (c, s'), if s'.log.length > s.log.length then "admit" else "sleep")
+      let where_ := if d.s.inBody.contains i then "cancel body" else "cancel wait"
+      match dstep d (.cancel i) with
+      | .ok d' => (some d', where_)
       | .error e => (st, showErr e)
     | none => (st, "bad-op")
-  | ["advance", dt], some (c, s) =>
-    match dt.toNat? with
-    | some dt =>
-      match advance c s (s.now + dt) with
-      | .ok s' =>
-        let adm := s'.log.drop s.log.length
-        (some (c, s'), s!"t={s'.now} adm={joinWith "," (adm.map toString)} sleeping={s'.sleepers.length}")
+  | "advance" :: dt :: hint, some d =>
+    match dt.toNat?, nats? hint with
+    | some dt, some hint =>
+      match advance d (d.s.now + dt) hint with
+      | .ok d' =>
+        let adm := d'.s.log.drop d.s.log.length
+        (some d', s!"t={d'.s.now} adm={joinWith "," (adm.map toString)} sleeping={inAenter d'} body={d'.s.inBody.length}")
       | .error e => (st, showErr e)
-    | none => (st, "bad-op")
+    | _, _ => (st, "bad-op")
   | _, _ => (st, "bad-op")
 
-def main : IO Unit := foldLines (none : Option (Cfg × State)) handle
+def main : IO Unit := foldLines (none : Option D) handle
